@@ -1285,7 +1285,8 @@ func (client *client) disconnectHandler(dis *packets.Disconnect) *codes.Error {
 	}
 	client.disconnect = dis
 	// 不发送will message
-	client.cleanWillFlag = true
+	// DISCONNECT with reason code 0x04 asks the server to publish the will message.
+	client.cleanWillFlag = dis.Code != codes.DisconnectWithWillMessage
 	return nil
 }
 
